@@ -179,12 +179,9 @@ class Gen:
         pool = [ms[0], ms[-1]] + ms[1:-1]
         return self.rot('enum:' + name, pool)
 
-    def defined(self, kind, v):
-        return not (kind[0] == 'struct' and (self.s.classes.get(kind[1], {}).get('minver') or 0) > v)
-
     def value(self, kind, v, depth):
         if kind[0] == 'tagged':
-            rows = [r for r in self.s.tables[kind[1]] if r[2] <= v < r[3] and self.defined(r[1], v)]
+            rows = [r for r in self.s.tables[kind[1]] if r[2] <= v < r[3]]
             r = self.rot('tagged:%s:%d' % (kind[1], v), rows)
             return ('T', r[0], self.value(tuple(r[1]), v, depth))
         if kind[0] == 'prim':
@@ -229,8 +226,7 @@ class Gen:
             if it.get('by') and it['by'].get('src') == 'next_type' and it['mult'] == 'Req':
                 n = 1
             if i in key_for and n:
-                # rows whose class refuses this version altogether (class-level minimum version) are not values of version v
-                table = [r for r in key_for[i]['by']['table'] if self.defined(r[2], v)] or key_for[i]['by']['table']
+                table = key_for[i]['by']['table']
                 row = self.rot('key:%s.%s' % (cname, it['field']), table)
                 key = row[0]
                 val = ('P', 'PText', key[1]) if key[0] == 'text' else ('E', it['kind'][1], key[1])
@@ -238,7 +234,7 @@ class Gen:
                 continue
             if it.get('by') and it['by'].get('src') == 'next_type':
                 # kind chosen by the type byte of the item itself: any row
-                row = self.rot('alt:%s.%s' % (cname, it['field']), [r for r in it['by']['table'] if self.defined(r[2], v)] or it['by']['table'])
+                row = self.rot('alt:%s.%s' % (cname, it['field']), it['by']['table'])
                 res = dict(it, tag=row[1], kind=list(row[2]))
                 res.pop('by')
                 fields.append((res, [self.value(tuple(row[2]), v, depth) for _ in range(n)]))
